@@ -66,7 +66,7 @@ def ctorCase (id : String) (payload : List Sexp) : List String :=
         | some (.list [_, .atom "true"]) => true
         | _ => false
       let gs := parseTParams p
-      let base := if hin then "Leak" else region t
+      let base := if hin then "Leak" else regionG t
       let reg := base
       both id (ctorModel t hin ++ [("tparams", TParams.typeParamList gs)]) (ctorSpec t ++ [("tparams", TParams.specList gs)]) reg
     | none => err id "bad-tree"
